@@ -63,6 +63,7 @@ def gen(seed, tier, extra=None):
     plan['seed'] = seed
     plan['scenario'] = 'default-limit' if rng.random() < 0.04 else 'limits'
     plan['sim_options'] = rng.random() < 0.8
+    plan['float_limits'] = rng.random() < 0.2      # the documented default is written 1e9: limits may be floats
     return plan
 
 
@@ -170,6 +171,8 @@ def run(plan, stats):
     limits = limits_for(plan, n, marks)
     base_events = norm_events(real0.events) if real0 is not None else None
     for lim in limits:
+        if plan.get('float_limits'):
+            lim = float(lim)
         ref_l = run_ref(plan, limit=lim, cap=0)
         if ref_l.error is not None and ref_l.error[0] == 'unsupported':
             stats.c['ref_unsupported_limited'] += 1
